@@ -186,8 +186,8 @@ fn rt_run<T>(
             o.insert("l1".into(), json!(format!("panic: {}", trunc(&p, 120))));
         }
     }
-    let Some(b2) = b2 else { return Value::Object(o) };
-    let (s, v2) = stage_out(guarded(|| parse(&b2)));
+    let Some(ref b2) = b2 else { return Value::Object(o) };
+    let (s, v2) = stage_out(guarded(|| parse(b2)));
     o.insert("p2".into(), s);
     let Some(v2) = v2 else { return Value::Object(o) };
     match guarded(|| logical(&v2, &texts)) {
@@ -379,7 +379,36 @@ casc_fmt!(f_zbs, ZbsDiff, l_zbs);
 casc_fmt!(f_buildcfg, BuildConfig, l_buildcfg);
 casc_fmt!(f_cdncfg, CdnConfig, l_cdncfg);
 casc_fmt!(f_patchcfg, PatchConfig, l_patchcfg);
-casc_fmt!(f_productcfg, ProductConfig, l_productcfg);
+mod f_productcfg {
+    use super::*;
+    pub fn parse(b: &[u8], _: &Env) -> Result<Val, String> {
+        <ProductConfig as CascFormat>::parse(b).map(|v| Box::new(v) as Val).map_err(|e| e.to_string())
+    }
+    fn region_hm(r: &cascette_formats::config::RegionConfig) -> usize {
+        let c = &r.config;
+        c.opaque_product_specific.as_ref().map_or(0, |m| m.len()).max(c.replacement_locales.as_ref().map_or(0, |m| m.len())).max(c.install_media.as_ref().map_or(0, |m| m.len()))
+    }
+    /// size of the largest HashMap-typed field (their serialisation order is the subject of F08 finding)
+    fn hm(v: &ProductConfig) -> usize {
+        let mut regions: Vec<&cascette_formats::config::RegionConfig> = vec![&v.all];
+        for r in [&v.cn, &v.dede, &v.enus, &v.eses, &v.esmx, &v.frfr, &v.itit, &v.kokr, &v.ptbr, &v.ruru, &v.zhcn, &v.zhtw].into_iter().flatten() {
+            regions.push(r);
+        }
+        if let Some(p) = &v.platform {
+            for r in [&p.mac, &p.win].into_iter().flatten() {
+                regions.push(r);
+            }
+        }
+        regions.into_iter().map(region_hm).max().unwrap_or(0)
+    }
+    pub fn rt(v: Val, b: &[u8], _: &Env) -> Value {
+        let v = *v.downcast::<ProductConfig>().expect("value type");
+        let n = hm(&v);
+        let mut o = rt_run::<ProductConfig>(v, b, &|x| <ProductConfig as CascFormat>::parse(x).map_err(|e| e.to_string()), &|v| <ProductConfig as CascFormat>::build(v).map_err(|e| e.to_string()), &l_productcfg);
+        o["hm"] = json!(n);
+        o
+    }
+}
 casc_fmt!(f_keyring, KeyringConfig, l_keyring);
 casc_fmt!(f_bpsv, BpsvDocument, l_bpsv);
 casc_fmt!(f_espec, ESpec, l_espec);
@@ -706,6 +735,9 @@ fn build_download_seed(ver: u8) -> Result<Vec<u8>, String> {
     for i in 0..5u64 {
         b = b.add_file(EncodingKey::from_bytes(k16(0xE2, i)), 5000 + i, (i % 3) as i8).map_err(es)?;
         b = b.associate_file_with_tag(i as usize, if i % 2 == 0 { "Windows" } else { "enUS" }).map_err(es)?;
+        if ver != 2 {
+            b = b.set_file_checksum(i as usize, 0xC0DE_0000 + i as u32).map_err(es)?;
+        }
     }
     b.build().map_err(es)?.build().map_err(es)
 }
@@ -850,9 +882,9 @@ fn build_shmem_seed(v5: bool) -> Vec<u8> {
 const BPSV_SEED: &str = "Region!STRING:0|BuildConfig!HEX:16|CDNConfig!HEX:16|BuildId!DEC:4|VersionsName!String:0\n## seqn = 2241282\nus|be2bb98dc28aee05bbee519393696cdb|fac77b9ca52c84ac28ad83a7dbe1c829|61491|11.1.5.61491\neu|be2bb98dc28aee05bbee519393696cdb|fac77b9ca52c84ac28ad83a7dbe1c829|61491|11.1.5.61491\ncn|||0|\n";
 const BUILD_INFO_SEED: &str = "Branch!STRING:0|Active!DEC:1|Build Key!HEX:16|CDN Key!HEX:16|Install Key!HEX:16|IM Size!DEC:4|CDN Path!STRING:0|CDN Hosts!STRING:0|CDN Servers!STRING:0|Tags!STRING:0|Armadillo!STRING:0|Last Activated!STRING:0|Version!STRING:0|Product!STRING:0\nus|1|be2bb98dc28aee05bbee519393696cdb|fac77b9ca52c84ac28ad83a7dbe1c829|0123456789abcdef0123456789abcdef|4096|tpr/wow|level3.blizzard.com us.cdn.blizzard.com|http://level3.blizzard.com/?maxhosts=4 https://us.cdn.blizzard.com/?maxhosts=4|Windows x86_64 US? enUS speech?:Windows x86_64 US? enUS text?||2025-01-01T00:00:00Z|11.1.5.61491|wow\neu|0|be2bb98dc28aee05bbee519393696cdb|fac77b9ca52c84ac28ad83a7dbe1c829||0|tpr/wow|eu.cdn.blizzard.com||||||wow\n";
 const CDN_CONFIG_SEED: &str = "# CDN Configuration\n\narchives = 0017a402f556fbece46c38dc431a2c9b 00b79cc0eebdd26437c7e92e57ac7f5c 00872b40344ef1a3dac4aff09588603c\narchives-index-size = 173068 53588 41228\narchive-group = 58a3c9e02c964b0ec9dd6c085df99a77\npatch-archives = 071290388e1f3b898157c372f03bc435\npatch-archives-index-size = 2709\npatch-archive-group = aaad2399821319140599c508abd54c9c\nfile-index = e3fffe04f64007852408b86e44d91e5a\nfile-index-size = 9901\npatch-file-index = 35dc55e39ec07e21e9f9dd83c41ec208\npatch-file-index-size = 182\n";
-const PATCH_CONFIG_SEED: &str = "# Patch Configuration\n\npatch = aaad2399821319140599c508abd54c9c\npatch-size = 16725\npatch-entry = install 4e173599a18ca79e8fac4aa63c66304c 24197 bc4e960bed45b649d32a269ff33f2b73 23331 b:{22=n,*=z}\npatch-entry = encoding e058fa32dfe994c5e143bd0fcd0994dd 147000 25c87b6ce82551dc8d62c2800aad6e8f 146000\npatch-entry = download 0123456789abcdef0123456789abcdef 2798 fedcba9876543210fedcba9876543210\n";
-const PRODUCT_CONFIG_SEED: &str = r#"{"all":{"config":{"data_dir":"Data/","display_locales":["enUS","deDE"],"supported_locales":["enUS","deDE","frFR"],"product":"WoW","enable_block_copy_patch":true,"supports_multibox":true,"supports_offline":false,"shared_container_default_subfolder":"_retail_","launch_arguments":["-launch"],"opaque_product_specific":{"uses_web_credentials":"true","a":"1","b":"2"},"form":{"game_dir":{"dirname":"World of Warcraft"}}}},"enus":{"config":{"install":[{"add_remove_programs_key":{"display_name":"World of Warcraft","uninstall_path":"x","root":"HKEY_LOCAL_MACHINE"}}]}},"platform":{"win":{"config":{"binaries":{"game":{"relative_path":"Wow.exe","launch_arguments":[]}}}}}}"#;
-const MIME_SEED: &str = "MIME-Version: 1.0\r\nContent-Type: multipart/alternative; boundary=\"d39ea8fd-f2a5-4b1c-a2a6-1f5f0d1f8a3e\"\r\n\r\n--d39ea8fd-f2a5-4b1c-a2a6-1f5f0d1f8a3e\r\nContent-Type: text/plain\r\nContent-Disposition: version\r\n\r\nRegion!STRING:0|BuildConfig!HEX:16|BuildId!DEC:4\n## seqn = 2241282\nus|be2bb98dc28aee05bbee519393696cdb|61491\neu|be2bb98dc28aee05bbee519393696cdb|61491\n\r\n--d39ea8fd-f2a5-4b1c-a2a6-1f5f0d1f8a3e\r\nContent-Type: application/octet-stream\r\nContent-Disposition: signature\r\n\r\nAAECAwQFBgcICQ==\r\n--d39ea8fd-f2a5-4b1c-a2a6-1f5f0d1f8a3e--\r\nChecksum: 0000000000000000000000000000000000000000000000000000000000000000\r\n";
+const PATCH_CONFIG_SEED: &str = "# Patch Configuration\n\npatch = aaad2399821319140599c508abd54c9c\npatch-size = 16725\npatch-entry = install 4e173599a18ca79e8fac4aa63c66304c 24197 bc4e960bed45b649d32a269ff33f2b73 23331\npatch-entry = encoding e058fa32dfe994c5e143bd0fcd0994dd 147000 25c87b6ce82551dc8d62c2800aad6e8f 146000\npatch-entry = download 0123456789abcdef0123456789abcdef 2798 fedcba9876543210fedcba9876543210\n";
+const PRODUCT_CONFIG_SEED: &str = r#"{"all":{"config":{"data_dir":"Data/","display_locales":["enUS","deDE"],"supported_locales":["enUS","deDE","frFR"],"product":"WoW","enable_block_copy_patch":true,"supports_multibox":true,"supports_offline":false,"shared_container_default_subfolder":"_retail_","launch_arguments":["-launch"],"opaque_product_specific":{"uses_web_credentials":"true","a":"1","b":"2"},"form":{"game_dir":{"dirname":"World of Warcraft"}}}},"enus":{"config":{"install":[{"add_remove_programs_key":{"display_name":"World of Warcraft","icon_path":"i","install_path":"p","locale":"enUS","root":"HKEY_LOCAL_MACHINE","uid":"wow","uninstall_path":"x"}},{"desktop_shortcut":{"link":"l","target":"t","working_dir":"w"}}],"replacement_locales":{"enGB":"enUS","esMX":"esES"},"opaque_complex_data":{"z":1,"a":[1,2,{"b":null}]}}},"platform":{"win":{"config":{"binaries":{"game":{"relative_path":"Wow.exe","launch_arguments":[]}}}}}}"#;
+const MIME_SEED: &str = "MIME-Version: 1.0\r\nContent-Type: multipart/alternative; boundary=\"d39ea8fd-f2a5-4b1c-a2a6-1f5f0d1f8a3e\"\r\n\r\n--d39ea8fd-f2a5-4b1c-a2a6-1f5f0d1f8a3e\r\nContent-Type: text/plain\r\nContent-Disposition: version\r\n\r\nRegion!STRING:0|BuildConfig!HEX:16|BuildId!DEC:4\n## seqn = 2241282\nus|be2bb98dc28aee05bbee519393696cdb|61491\neu|be2bb98dc28aee05bbee519393696cdb|61491\n\r\n--d39ea8fd-f2a5-4b1c-a2a6-1f5f0d1f8a3e\r\nContent-Type: application/octet-stream\r\nContent-Disposition: signature\r\n\r\nAAECAwQFBgcICQ==\r\n--d39ea8fd-f2a5-4b1c-a2a6-1f5f0d1f8a3e--\r\n";
 const MIME_SEED_PLAIN: &str = "MIME-Version: 1.0\r\nContent-Type: multipart/mixed; boundary=\"xyz\"\r\n\r\n--xyz\r\nContent-Disposition: cdns\r\n\r\nName!STRING:0|Path!STRING:0|Hosts!STRING:0\nus|tpr/wow|level3.blizzard.com\n\r\n--xyz--\r\n";
 
 fn text_seed(name: &str, s: &str) -> Seed {
@@ -962,6 +994,7 @@ fn all_seeds(tmp: &Path) -> Vec<Vec<Seed>> {
             "mime" => {
                 v.push(text_seed("mime_v1", MIME_SEED));
                 v.push(text_seed("mime_plain", MIME_SEED_PLAIN));
+                v.push(text_seed("mime_checksum", &format!("{MIME_SEED}Checksum: 0000000000000000000000000000000000000000000000000000000000000000\r\n")));
                 v.push(text_seed("bpsv_versions", BPSV_SEED));
             }
             "local_idx" => {
@@ -991,10 +1024,1585 @@ fn all_seeds(tmp: &Path) -> Vec<Vec<Seed>> {
     out
 }
 
-//@@LAYOUT@@
-//@@MUTATE@@
-//@@BPROG@@
-//@@PARENT@@
+// ------------------------------------------------------------------------------------------------
+// layout table: the header fields that drive control flow and allocation, per format.
+// Used in both directions: patching TLC's field vectors into seeds, and reading the fields of every
+// input back into the event (`h`) so that deviation guards of the monitor can be stated on them.
+// ------------------------------------------------------------------------------------------------
+#[derive(Clone, Copy)]
+enum Loc {
+    Abs(usize),
+    /// len - n
+    End(usize),
+    Dyn(fn(&[u8]) -> Option<usize>),
+}
+#[derive(Clone, Copy)]
+struct Fld {
+    name: &'static str,
+    loc: Loc,
+    w: usize,
+    be: bool,
+}
+const fn fb(name: &'static str, at: usize, w: usize) -> Fld {
+    Fld { name, loc: Loc::Abs(at), w, be: true }
+}
+const fn fl(name: &'static str, at: usize, w: usize) -> Fld {
+    Fld { name, loc: Loc::Abs(at), w, be: false }
+}
+fn rd_le(b: &[u8], at: usize, w: usize) -> Option<u64> {
+    if at.checked_add(w)? > b.len() {
+        return None;
+    }
+    Some((0..w).fold(0u64, |a, i| a | (u64::from(b[at + i]) << (8 * i))))
+}
+fn aidx_hash2(b: &[u8]) -> Option<usize> {
+    // the second copy of the footer-hash-size byte: offset 15 of the 20-byte fixed footer part, whose
+    // start is computed from the first copy (read at end-13)
+    let n = b.len();
+    let first = *b.get(n.checked_sub(13)?)? as usize;
+    n.checked_sub(20 + first).map(|s| s + 15).filter(|&p| p < n)
+}
+fn root_blk0(b: &[u8]) -> Option<usize> {
+    let m = b.get(0..4)?;
+    if m != b"TSFM" && m != b"MFST" {
+        return Some(0);
+    }
+    let le = m == b"TSFM";
+    let rd = |at: usize| -> Option<u32> {
+        let x: [u8; 4] = b.get(at..at + 4)?.try_into().ok()?;
+        Some(if le { u32::from_le_bytes(x) } else { u32::from_be_bytes(x) })
+    };
+    let (v1, v2) = (rd(4)?, rd(8)?);
+    if (16..100).contains(&v1) && v2 < 10 && v2 < v1 { Some(v1 as usize) } else { Some(12) }
+}
+fn pi_blocks(b: &[u8]) -> Option<usize> {
+    let extra = rd_le(b, 12, 2)? as usize;
+    Some(14 + extra)
+}
+fn pi_blk0_type(b: &[u8]) -> Option<usize> {
+    pi_blocks(b).map(|p| p + 4)
+}
+fn pi_blk0_size(b: &[u8]) -> Option<usize> {
+    pi_blocks(b).map(|p| p + 8)
+}
+fn pi_blk0_entries(b: &[u8]) -> Option<usize> {
+    // entry count of the first block's body (u32 LE at the start of the block data = header_size)
+    rd_le(b, 0, 4).map(|h| h as usize)
+}
+fn residency_pc(_: &[u8]) -> Option<usize> {
+    Some(1)
+}
+
+fn layout(fmt: &str) -> Vec<Fld> {
+    const AIDX: &[Fld] = &[
+        Fld { name: "version", loc: Loc::End(20), w: 1, be: false },
+        Fld { name: "reserved", loc: Loc::End(19), w: 2, be: false },
+        Fld { name: "page_size_kb", loc: Loc::End(17), w: 1, be: false },
+        Fld { name: "offset_bytes", loc: Loc::End(16), w: 1, be: false },
+        Fld { name: "size_bytes", loc: Loc::End(15), w: 1, be: false },
+        Fld { name: "ekey_length", loc: Loc::End(14), w: 1, be: false },
+        Fld { name: "hash_bytes", loc: Loc::End(13), w: 1, be: false },
+        Fld { name: "element_count", loc: Loc::End(12), w: 4, be: false },
+        Fld { name: "hash_bytes2", loc: Loc::Dyn(aidx_hash2), w: 1, be: false },
+    ];
+    const BLTE: &[Fld] = &[fb("magic", 0, 4), fb("header_size", 4, 4), fb("flags", 8, 1), fb("chunk_count", 9, 3), fb("c0_csize", 12, 4), fb("c0_dsize", 16, 4)];
+    match fmt {
+        "blte" | "blte_decompress" | "tvfs_blte" | "encoding_blte" => BLTE.to_vec(),
+        "encoding" => vec![
+            fb("magic", 0, 2),
+            fb("version", 2, 1),
+            fb("ckey_hash_size", 3, 1),
+            fb("ekey_hash_size", 4, 1),
+            fb("ckey_page_kb", 5, 2),
+            fb("ekey_page_kb", 7, 2),
+            fb("ckey_page_count", 9, 4),
+            fb("ekey_page_count", 13, 4),
+            fb("flags", 17, 1),
+            fb("espec_block_size", 18, 4),
+        ],
+        "archive_index" | "archive_group" => AIDX.to_vec(),
+        "root" => vec![
+            fb("magic", 0, 4),
+            fl("w1", 4, 4),
+            fl("w2", 8, 4),
+            fl("w3", 12, 4),
+            fl("w4", 16, 4),
+            Fld { name: "blk0_records", loc: Loc::Dyn(root_blk0), w: 4, be: false },
+        ],
+        "install" => vec![fb("magic", 0, 2), fb("version", 2, 1), fb("ckey_length", 3, 1), fb("tag_count", 4, 2), fb("entry_count", 6, 4)],
+        "download" => vec![fb("magic", 0, 2), fb("version", 2, 1), fb("ekey_length", 3, 1), fb("has_checksum", 4, 1), fb("entry_count", 5, 4), fb("tag_count", 9, 2), fb("flag_size", 11, 1)],
+        "size" => vec![fb("magic", 0, 2), fb("version", 2, 1), fb("ekey_size", 3, 1), fb("entry_count", 4, 4), fb("tag_count", 8, 2), fb("total_size", 10, 8), fb("esize_bytes", 18, 1)],
+        "tvfs" => vec![
+            fb("magic", 0, 4),
+            fb("format_version", 4, 1),
+            fb("header_size", 5, 1),
+            fb("ekey_size", 6, 1),
+            fb("pkey_size", 7, 1),
+            fb("flags", 8, 4),
+            fb("path_off", 12, 4),
+            fb("path_size", 16, 4),
+            fb("vfs_off", 20, 4),
+            fb("vfs_size", 24, 4),
+            fb("cft_off", 28, 4),
+            fb("cft_size", 32, 4),
+            fb("max_depth", 36, 2),
+            fb("est_off", 38, 4),
+            fb("est_size", 42, 4),
+        ],
+        "patch_archive" => vec![
+            fb("magic", 0, 2),
+            fb("version", 2, 1),
+            fb("file_key_size", 3, 1),
+            fb("old_key_size", 4, 1),
+            fb("patch_key_size", 5, 1),
+            fb("block_size_bits", 6, 1),
+            fb("block_count", 7, 2),
+            fb("flags", 9, 1),
+            fb("espec_length", 50, 1),
+        ],
+        "patch_index" => vec![
+            fl("header_size", 0, 4),
+            fl("version", 4, 4),
+            fl("data_size", 8, 4),
+            fl("extra_len", 12, 2),
+            fl("key_size", 14, 1),
+            Fld { name: "block_count", loc: Loc::Dyn(pi_blocks), w: 4, be: false },
+            Fld { name: "blk0_type", loc: Loc::Dyn(pi_blk0_type), w: 4, be: false },
+            Fld { name: "blk0_size", loc: Loc::Dyn(pi_blk0_size), w: 4, be: false },
+            Fld { name: "blk0_entries", loc: Loc::Dyn(pi_blk0_entries), w: 4, be: false },
+        ],
+        "zbsdiff" | "zbsdiff_apply" => vec![fl("signature", 0, 8), fl("control_size", 8, 8), fl("diff_size", 16, 8), fl("output_size", 24, 8)],
+        "local_idx" => vec![
+            fl("hdr_block_size", 0, 4),
+            fl("version", 8, 2),
+            fl("bucket", 10, 1),
+            fl("size_len", 12, 1),
+            fl("off_len", 13, 1),
+            fl("key_len", 14, 1),
+            fl("off_bits", 15, 1),
+            fl("segment_size", 16, 8),
+            fl("entry_block_size", 32, 4),
+        ],
+        "lru" => vec![fl("version", 0, 2), fl("mru_head", 20, 4), fl("lru_tail", 24, 4), fl("e0_prev", 28, 4), fl("e0_next", 32, 4)],
+        "shmem" => vec![fl("version", 0, 1), fl("init", 2, 1), fl("fst_format", 0x108, 4), fl("data_size", 0x10C, 4), fl("exclusive", 0x150, 4), fl("pid_state", 0x154, 4), fl("max_slots", 0x154 + 24, 4), fl("direct_max_slots", 24, 4)],
+        "residency" => vec![fl("bucket_id", 0, 1), Fld { name: "page_count", loc: Loc::Dyn(residency_pc), w: 4, be: false }],
+        _ => Vec::new(),
+    }
+}
+fn fld_at(f: &Fld, b: &[u8]) -> Option<usize> {
+    let at = match f.loc {
+        Loc::Abs(a) => a,
+        Loc::End(n) => b.len().checked_sub(n)?,
+        Loc::Dyn(g) => g(b)?,
+    };
+    if at.checked_add(f.w)? <= b.len() { Some(at) } else { None }
+}
+fn fld_read(f: &Fld, b: &[u8]) -> Option<u64> {
+    let at = fld_at(f, b)?;
+    let s = &b[at..at + f.w];
+    Some(if f.be { s.iter().fold(0u64, |a, &x| (a << 8) | u64::from(x)) } else { s.iter().rev().fold(0u64, |a, &x| (a << 8) | u64::from(x)) })
+}
+fn fld_write(f: &Fld, b: &mut [u8], v: u64) -> bool {
+    let Some(at) = fld_at(f, b) else { return false };
+    for i in 0..f.w {
+        let byte = ((v >> (8 * i)) & 0xFF) as u8;
+        if f.be {
+            b[at + f.w - 1 - i] = byte;
+        } else {
+            b[at + i] = byte;
+        }
+    }
+    true
+}
+/// header fields of an input as 16-bit limbs (most significant first); absent when out of range
+fn header_fields(fmt: &str, b: &[u8]) -> Value {
+    let mut m = Map::new();
+    for f in &layout(fmt) {
+        if let Some(v) = fld_read(f, b) {
+            m.insert(f.name.into(), limbs(v, f.w));
+        }
+    }
+    Value::Object(m)
+}
+/// boundary class token -> concrete value for a field of width w currently holding `cur`
+fn class_value(tok: &str, w: usize, cur: u64, len: usize) -> Option<u64> {
+    let bits = (8 * w) as u32;
+    let maxv = if bits >= 64 { u64::MAX } else { (1u64 << bits) - 1 };
+    Some(match tok {
+        "typ" => return None,
+        "zero" => 0,
+        "one" => 1,
+        "two" => 2,
+        "max" => maxv,
+        "maxm1" => maxv - 1,
+        "half" => 1u64 << (bits - 1),
+        "halfm1" => (1u64 << (bits - 1)) - 1,
+        "over" => cur.wrapping_add(1) & maxv,
+        "under" => cur.saturating_sub(1),
+        "len" => (len as u64) & maxv,
+        "big" => 0x0100_0000u64.min(maxv),
+        "bad" => cur ^ (0xFFu64 << (bits - 8)),
+        t => t.strip_prefix("n:")?.parse::<u64>().ok()? & maxv,
+    })
+}
+/// re-seal the checksums a parser verifies before it looks at the fields (so that patched / mutated
+/// fields are reached); returns false when the format has none
+fn reseal(fmt: &str, b: &mut Vec<u8>) -> bool {
+    match fmt {
+        "archive_index" | "archive_group" => {
+            let n = b.len();
+            if n < 28 {
+                return false;
+            }
+            // footer hash = md5(version..element_count padded to 20 bytes)[..8], stored in the last 8 bytes
+            let mut d = b[n - 20..n - 8].to_vec();
+            d.resize(20, 0);
+            let h = md5::compute(&d);
+            b[n - 8..].copy_from_slice(&h.0[..8]);
+            true
+        }
+        "lru" => {
+            if b.len() < 28 {
+                return false;
+            }
+            b[4..20].fill(0);
+            let h = md5::compute(&b[..]);
+            b[4..20].copy_from_slice(&h.0);
+            true
+        }
+        "encoding" => {
+            // page checksums in the two page indices
+            let rd = |at: usize, w: usize| -> Option<usize> { b.get(at..at + w).map(|s| s.iter().fold(0usize, |a, &x| (a << 8) | x as usize)) };
+            let (Some(ckb), Some(ekb), Some(cn), Some(en), Some(es)) = (rd(5, 2), rd(7, 2), rd(9, 4), rd(13, 4), rd(18, 4)) else { return false };
+            if cn > 64 || en > 64 {
+                return false;
+            }
+            let mut pos = 22 + es;
+            for (cnt, kb) in [(cn, ckb), (en, ekb)] {
+                let idx = pos;
+                let pages = idx + cnt * 32;
+                for i in 0..cnt {
+                    let p0 = pages + i * kb * 1024;
+                    let p1 = p0 + kb * 1024;
+                    if p1 > b.len() {
+                        return false;
+                    }
+                    let h = md5::compute(&b[p0..p1]);
+                    b[idx + i * 32 + 16..idx + i * 32 + 32].copy_from_slice(&h.0);
+                }
+                pos = pages + cnt * kb * 1024;
+            }
+            true
+        }
+        _ => false,
+    }
+}
+
+// ------------------------------------------------------------------------------------------------
+// seeded mutation generator
+// ------------------------------------------------------------------------------------------------
+const INTERESTING: &[u64] = &[0, 1, 2, 7, 8, 9, 15, 16, 17, 0x7F, 0x80, 0xFF, 0x100, 0x3FF, 0x400, 0x1000, 0x7FFF, 0x8000, 0xFFFF, 0x1_0000, 0xFF_FFFF, 0x100_0000, 0x7FFF_FFFF, 0x8000_0000, 0xFFFF_FFFF];
+const TEXT_BITS: &[&str] = &["|", "\n", "\r\n", " = ", "=", ":", "!", "{", "}", ",", "*", "\u{e9}", "\u{20ac}", "\u{0}", "##", "# ", " ", "\t", "\u{a0}", "\"", "[", "]", "e:{", "b:{", "z:{", "K", "M", "-", "0x", "9999999999999999999999", "STRING:0", "HEX:16", "DEC:4", "seqn", "key-", "patch-entry", "Content-Type:", "multipart/mixed", "boundary=", "--", "Checksum: "];
+
+fn pick_offset(rng: &mut Rng, len: usize) -> usize {
+    if len == 0 {
+        return 0;
+    }
+    match rng.below(10) {
+        0..=3 => rng.below(len.min(64) as u64) as usize,             // header
+        4..=5 => len - 1 - rng.below(len.min(40) as u64) as usize,  // footer
+        _ => rng.below(len as u64) as usize,
+    }
+}
+fn mutate_once(rng: &mut Rng, b: &mut Vec<u8>, fmt: &Fmt, other: &[u8], how: &mut String) {
+    let len = b.len();
+    let choice = rng.below(if fmt.text { 14 } else { 12 });
+    match choice {
+        0 if len > 0 => {
+            let o = pick_offset(rng, len);
+            let bit = rng.below(8);
+            b[o] ^= 1 << bit;
+            how.push_str(&format!("flip@{o}.{bit},"));
+        }
+        1 if len > 0 => {
+            let o = pick_offset(rng, len);
+            let v = *rng.pick(INTERESTING) as u8;
+            b[o] = v;
+            how.push_str(&format!("set8@{o}={v},"));
+        }
+        2 | 3 if len > 0 => {
+            // overwrite a 2/3/4/8-byte word with an interesting value, either endianness
+            let w = *rng.pick(&[2usize, 3, 4, 4, 4, 8]);
+            let o = pick_offset(rng, len);
+            let be = rng.chance(1, 2);
+            let v = match rng.below(5) {
+                0 => len as u64,
+                1 => (len as u64).wrapping_add(1),
+                2 => rng.next(),
+                _ => *rng.pick(INTERESTING),
+            };
+            for i in 0..w {
+                let byte = ((v >> (8 * i)) & 0xFF) as u8;
+                let p = if be { o + w - 1 - i } else { o + i };
+                if p < len {
+                    b[p] = byte;
+                }
+            }
+            how.push_str(&format!("set{}{}@{o}={v},", 8 * w, if be { "be" } else { "le" }));
+        }
+        4 if len > 0 => {
+            // tweak a known length/count field of the format
+            let lay = layout(fmt.name);
+            if lay.is_empty() {
+                let o = pick_offset(rng, len);
+                b[o] = b[o].wrapping_add(1);
+                how.push_str(&format!("inc@{o},"));
+            } else {
+                let f = rng.pick(&lay);
+                if let Some(cur) = fld_read(f, b) {
+                    let tok = *rng.pick(&["zero", "one", "max", "maxm1", "half", "halfm1", "over", "under", "len", "big"]);
+                    if let Some(v) = class_value(tok, f.w, cur, len) {
+                        fld_write(f, b, v);
+                        how.push_str(&format!("fld:{}={tok},", f.name));
+                    }
+                }
+            }
+        }
+        5 if len > 0 => {
+            let at = if rng.chance(1, 3) { rng.below(len.min(64) as u64 + 1) as usize } else { rng.below(len as u64 + 1) as usize };
+            b.truncate(at);
+            how.push_str(&format!("trunc@{at},"));
+        }
+        6 => {
+            let n = 1 + rng.below(32) as usize;
+            let extra = if rng.chance(1, 2) { vec![*rng.pick(&[0u8, 0xFF, 0x41]); n] } else { rng.bytes(n) };
+            b.extend_from_slice(&extra);
+            how.push_str(&format!("append{n},"));
+        }
+        7 if len > 1 => {
+            // delete a chunk
+            let o = pick_offset(rng, len);
+            let n = (1 + rng.below(64) as usize).min(len - o);
+            b.drain(o..o + n);
+            how.push_str(&format!("del@{o}+{n},"));
+        }
+        8 if len > 0 => {
+            // duplicate / move a chunk inside the input
+            let s = rng.below(len as u64) as usize;
+            let n = (1 + rng.below(128) as usize).min(len - s);
+            let chunk = b[s..s + n].to_vec();
+            let d = rng.below(len as u64 + 1) as usize;
+            if rng.chance(1, 2) {
+                let _ = b.splice(d..d, chunk);
+                how.push_str(&format!("dup@{s}+{n}->{d},"));
+            } else {
+                let e = (d + n).min(b.len());
+                b[d..e].copy_from_slice(&chunk[..e - d]);
+                how.push_str(&format!("copy@{s}+{n}->{d},"));
+            }
+        }
+        9 if !other.is_empty() => {
+            // splice: head of this input + tail of another seed of the format (or the reverse)
+            let a = rng.below(len as u64 + 1) as usize;
+            let c = rng.below(other.len() as u64 + 1) as usize;
+            if rng.chance(1, 2) {
+                b.truncate(a);
+                b.extend_from_slice(&other[c..]);
+            } else {
+                let mut n = other[..c].to_vec();
+                n.extend_from_slice(&b[a..]);
+                *b = n;
+            }
+            how.push_str(&format!("splice@{a}/{c},"));
+        }
+        10 if len > 0 => {
+            let o = pick_offset(rng, len);
+            let n = (1 + rng.below(16) as usize).min(len - o);
+            let r = rng.bytes(n);
+            b[o..o + n].copy_from_slice(&r);
+            how.push_str(&format!("rand@{o}+{n},"));
+        }
+        11 if len > 0 => {
+            let o = pick_offset(rng, len);
+            let d = if rng.chance(1, 2) { 1u8 } else { 0xFF };
+            b[o] = b[o].wrapping_add(d);
+            how.push_str(&format!("inc@{o},"));
+        }
+        12 => {
+            // text: insert a token
+            let t = rng.pick(TEXT_BITS).as_bytes().to_vec();
+            let reps = if rng.chance(1, 8) { 1 + rng.below(600) as usize } else { 1 };
+            let o = rng.below(len as u64 + 1) as usize;
+            let ins: Vec<u8> = t.iter().copied().cycle().take(t.len() * reps).collect();
+            let _ = b.splice(o..o, ins);
+            how.push_str(&format!("tok@{o}x{reps},"));
+        }
+        13 if len > 0 => {
+            // text: duplicate or delete a line
+            let lines: Vec<(usize, usize)> = {
+                let mut v = Vec::new();
+                let mut s = 0;
+                for (i, &c) in b.iter().enumerate() {
+                    if c == b'\n' {
+                        v.push((s, i + 1));
+                        s = i + 1;
+                    }
+                }
+                if s < b.len() {
+                    v.push((s, b.len()));
+                }
+                v
+            };
+            if !lines.is_empty() {
+                let (s, e) = *rng.pick(&lines);
+                if rng.chance(1, 2) {
+                    let l = b[s..e].to_vec();
+                    let _ = b.splice(e..e, l);
+                    how.push_str(&format!("dupline@{s},"));
+                } else {
+                    b.drain(s..e);
+                    how.push_str(&format!("delline@{s},"));
+                }
+            }
+        }
+        _ => {}
+    }
+}
+fn mutate(rng: &mut Rng, seed: &[u8], fmt: &Fmt, other: &[u8]) -> (Vec<u8>, String) {
+    let mut b = seed.to_vec();
+    let mut how = String::new();
+    let n = match rng.below(10) {
+        0..=4 => 1,
+        5..=7 => 2,
+        8 => 3,
+        _ => 4 + rng.below(5),
+    };
+    for _ in 0..n {
+        mutate_once(rng, &mut b, fmt, other, &mut how);
+    }
+    if b.len() > (1 << 20) {
+        b.truncate(1 << 20);
+    }
+    if rng.chance(1, 2) && reseal(fmt.name, &mut b) {
+        how.push_str("reseal,");
+    }
+    (b, how)
+}
+
+// ------------------------------------------------------------------------------------------------
+// builder programs (C08, binding G): TLC enumerates [fmt, ver, es: sequence of entries with distinct
+// abstract keys]; an entry is [k, s, a, t] = key id, size class, auxiliary class, tag bitmask.  The
+// program is executed on the crate's builder, serialised, parsed back, and the parsed content is mapped
+// back to abstract entries through the (injective) concretisation below.  The model (RoundTrip.tla)
+// says: the set of entries read back equals the set of entries of the program.
+// ------------------------------------------------------------------------------------------------
+struct AEntry {
+    k: u64,
+    s: u64,
+    a: u64,
+    t: u64,
+}
+const SIZE_CLASS: [u64; 4] = [0, 1, 4113, 0xFFFF_FFFF];
+fn c_size(s: u64) -> u64 {
+    SIZE_CLASS[(s as usize).min(3)]
+}
+fn a_size(v: u64) -> i64 {
+    SIZE_CLASS.iter().position(|&x| x == v).map_or(-1, |p| p as i64)
+}
+fn bk16(k: u64) -> [u8; 16] {
+    k16(0x50, k)
+}
+fn a_key16(b: &[u8]) -> i64 {
+    (1..=8u64).find(|&k| b.len() <= 16 && !b.is_empty() && bk16(k)[..b.len()] == *b).map_or(-1, |k| k as i64)
+}
+fn bpath(k: u64) -> String {
+    format!("dir{k}/file_{k}.dat")
+}
+fn a_path(p: &str) -> i64 {
+    (1..=8u64).find(|&k| bpath(k) == p).map_or(-1, |k| k as i64)
+}
+const TAGS: [&str; 2] = ["Windows", "enUS"];
+fn parse_entries(p: &Value) -> Vec<AEntry> {
+    p["es"].as_array().map(|a| a.iter().map(|e| AEntry { k: e["k"].as_u64().unwrap_or(0), s: e["s"].as_u64().unwrap_or(0), a: e["a"].as_u64().unwrap_or(0), t: e["t"].as_u64().unwrap_or(0) }).collect()).unwrap_or_default()
+}
+fn ae(k: i64, s: i64, a: i64, t: i64) -> Value {
+    json!({"k": k, "s": s, "a": a, "t": t})
+}
+fn tagmask(tags: &[cascette_formats::install::InstallTag], i: usize) -> i64 {
+    let mut m = 0i64;
+    for (j, name) in TAGS.iter().enumerate() {
+        match tags.iter().find(|t| t.name == *name) {
+            Some(t) if t.has_file(i) => m |= 1 << j,
+            Some(_) => {}
+            None => return -1,
+        }
+    }
+    if tags.len() != TAGS.len() { -1 } else { m }
+}
+
+fn bp_build(fmt: &str, ver: u64, es: &[AEntry]) -> Result<Vec<u8>, String> {
+    use cascette_crypto::md5::FileDataId;
+    use cascette_crypto::{ContentKey, EncodingKey};
+    use cascette_formats::install::TagType;
+    match fmt {
+        "install" => {
+            use cascette_formats::install::InstallManifestBuilder;
+            let mut b = InstallManifestBuilder::new().add_tag(TAGS[0].into(), TagType::Platform).add_tag(TAGS[1].into(), TagType::Locale);
+            for (i, e) in es.iter().enumerate() {
+                b = b.add_file(bpath(e.k), ContentKey::from_bytes(bk16(e.k)), c_size(e.s) as u32);
+                for (j, name) in TAGS.iter().enumerate() {
+                    if e.t & (1 << j) != 0 {
+                        b = b.associate_file_with_tag(i, name).map_err(es_)?;
+                    }
+                }
+            }
+            b.build().map_err(es_)?.build().map_err(es_)
+        }
+        "download" => {
+            use cascette_formats::download::DownloadManifestBuilder;
+            let mut b = DownloadManifestBuilder::new(ver as u8).map_err(es_)?;
+            if ver >= 2 {
+                b = b.with_flags(1).map_err(es_)?;
+            }
+            if ver >= 3 {
+                b = b.with_base_priority(-2).map_err(es_)?;
+            }
+            b = b.add_tag(TAGS[0].into(), TagType::Platform).add_tag(TAGS[1].into(), TagType::Locale);
+            for (i, e) in es.iter().enumerate() {
+                // aux class 1: a size above 4 GiB (40-bit field) and a negative priority
+                let size = if e.a == 1 { c_size(e.s) + (1u64 << 32) } else { c_size(e.s) };
+                b = b.add_file(EncodingKey::from_bytes(bk16(e.k)), size, if e.a == 1 { -3 } else { 2 }).map_err(es_)?;
+                for (j, name) in TAGS.iter().enumerate() {
+                    if e.t & (1 << j) != 0 {
+                        b = b.associate_file_with_tag(i, name).map_err(es_)?;
+                    }
+                }
+            }
+            b.build().map_err(es_)?.build().map_err(es_)
+        }
+        "size" => {
+            use cascette_formats::size::SizeManifestBuilder;
+            let mut b = SizeManifestBuilder::new().version(ver as u8).ekey_size(9).add_tag(TAGS[0].into(), TagType::Platform).add_tag(TAGS[1].into(), TagType::Locale);
+            if ver == 1 {
+                b = b.esize_bytes(4);
+            }
+            for (i, e) in es.iter().enumerate() {
+                b = b.add_entry(bk16(e.k)[..9].to_vec(), c_size(e.s));
+                for j in 0..TAGS.len() {
+                    if e.t & (1 << j) != 0 {
+                        b = b.tag_file(j, i);
+                    }
+                }
+            }
+            b.build().map_err(es_)?.build().map_err(es_)
+        }
+        "archive_index" => {
+            use cascette_formats::archive::{ArchiveGroupBuilder, ArchiveGroupEntry, ArchiveIndexBuilder};
+            let mut out = Vec::new();
+            if ver == 6 {
+                let mut b = ArchiveGroupBuilder::new();
+                for e in es {
+                    b.add_entry(ArchiveGroupEntry::new(bk16(e.k).to_vec(), (e.a * 513) as u16, (e.k * 64) as u32, c_size(e.s) as u32));
+                }
+                b.build(std::io::Cursor::new(&mut out)).map_err(es_)?;
+            } else {
+                let mut b = ArchiveIndexBuilder::with_config(16, ver as u8, 4);
+                for e in es {
+                    let off = if e.a == 1 { if ver == 5 { 0xFF_0000_0000u64 + e.k } else { 0xFFFF_0000 + e.k } } else { e.k * 64 };
+                    b.add_entry(bk16(e.k).to_vec(), c_size(e.s) as u32, off);
+                }
+                b.build(std::io::Cursor::new(&mut out)).map_err(es_)?;
+            }
+            Ok(out)
+        }
+        "encoding" => {
+            use cascette_formats::encoding::{CKeyEntryData, EKeyEntryData, EncodingBuilder};
+            let mut b = EncodingBuilder::new().with_page_sizes(1, 1);
+            for e in es {
+                let ek = EncodingKey::from_bytes(k16(0x60, e.k));
+                let mut eks = vec![ek];
+                if e.t & 1 != 0 {
+                    eks.push(EncodingKey::from_bytes(k16(0x61, e.k)));
+                }
+                let size = if e.a == 1 { c_size(e.s) + (1u64 << 32) } else { c_size(e.s) };
+                b.add_ckey_entry(CKeyEntryData { content_key: ContentKey::from_bytes(bk16(e.k)), file_size: size, encoding_keys: eks });
+                b.add_ekey_entry(EKeyEntryData { encoding_key: ek, espec: if e.t & 2 != 0 { "b:{256K*=z}".into() } else { "z".into() }, file_size: size });
+            }
+            b.build().map_err(es_)?.build().map_err(es_)
+        }
+        "root" => {
+            use cascette_formats::root::{ContentFlags, LocaleFlags, RootBuilder, RootVersion};
+            let v = match ver {
+                1 => RootVersion::V1,
+                2 => RootVersion::V2,
+                3 => RootVersion::V3,
+                _ => RootVersion::V4,
+            };
+            let mut b = RootBuilder::new(v);
+            for e in es {
+                let locale = if e.a == 1 { LocaleFlags::DEDE } else { LocaleFlags::ENUS };
+                let path = bpath(e.k);
+                // size class: spacing of the FileDataIDs (delta encoding); tag bit 0: named file
+                let fdid = 10 + e.k as u32 * (1 + c_size(e.s).min(100_000) as u32);
+                let named = e.t & 1 != 0 || ver == 1;
+                let content = if named { ContentFlags::INSTALL } else { ContentFlags::INSTALL | ContentFlags::NO_NAME_HASH };
+                b.add_file(FileDataId::new(fdid), ContentKey::from_bytes(bk16(e.k)), if named { Some(path.as_str()) } else { None }, LocaleFlags::new(locale), ContentFlags::new(content));
+            }
+            b.build().map_err(es_)
+        }
+        "tvfs" => {
+            use cascette_formats::tvfs::TvfsBuilder;
+            let mut b = if ver == 1 { TvfsBuilder::with_flags(0x7) } else { TvfsBuilder::new() };
+            if ver == 1 {
+                b.add_est_spec("z".into());
+                b.add_est_spec("n".into());
+            }
+            for e in es {
+                let mut ek = [0u8; 9];
+                ek.copy_from_slice(&bk16(e.k)[..9]);
+                let ck = if e.t & 1 != 0 || ver == 1 { Some(k16(0x62, e.k)) } else { None };
+                if ver == 1 {
+                    b.add_file_with_est(bpath(e.k), ek, c_size(e.s) as u32, 77, ck, e.a as u32);
+                } else {
+                    b.add_file(bpath(e.k), ek, c_size(e.s) as u32, if e.a == 1 { 0xFFFF_FFFF } else { 77 }, ck);
+                }
+            }
+            b.build().map_err(es_)
+        }
+        "patch_archive" => {
+            use cascette_formats::patch_archive::{PatchArchiveBuilder, PatchArchiveEncodingInfo};
+            let mut b = PatchArchiveBuilder::new();
+            if ver == 1 {
+                b = b.encoding_info(PatchArchiveEncodingInfo { encoding_ckey: k16(0x63, 1), encoding_ekey: k16(0x64, 1), decoded_size: 10, encoded_size: 9, espec: "z".into() });
+            }
+            for e in es {
+                let size = if e.a == 1 { c_size(e.s) + (1u64 << 32) } else { c_size(e.s) };
+                let mut patches = vec![(k16(0x65, e.k), size, k16(0x66, e.k), c_size(e.s) as u32, 1u8)];
+                if e.t & 1 != 0 {
+                    patches.push((k16(0x67, e.k), 5, k16(0x68, e.k), 6, 2u8));
+                }
+                b.add_file_entry(bk16(e.k), size, patches);
+            }
+            b.sort_entries();
+            b.build().map_err(es_)
+        }
+        "patch_index" => {
+            use cascette_formats::patch_index::{PatchIndexBuilder, PatchIndexEntry};
+            let mut b = PatchIndexBuilder::new().key_size(16);
+            for e in es {
+                b.add_entry(PatchIndexEntry { source_ekey: bk16(e.k), source_size: c_size(e.s) as u32, target_ekey: k16(0x69, e.k), target_size: if e.a == 1 { 0xFFFF_FFFF } else { 7 }, encoded_size: 50, suffix_offset: e.t as u8, patch_ekey: k16(0x6A, e.k) });
+            }
+            b.build().map_err(es_)
+        }
+        "bpsv" => {
+            use cascette_formats::bpsv::{BpsvDocument, BpsvSchema};
+            let schema = BpsvSchema::parse("Name!STRING:0|Hash!HEX:4|Size!DEC:4").map_err(es_)?;
+            let mut d = BpsvDocument::new(schema);
+            if ver == 1 {
+                d.set_sequence_number(4113);
+            }
+            for e in es {
+                d.add_raw_row(vec![bpath(e.k), if e.a == 1 { "deadbeef".into() } else { String::new() }, c_size(e.s).to_string()]).map_err(es_)?;
+            }
+            <BpsvDocument as CascFormat>::build(&d).map_err(es_)
+        }
+        "build_config" | "cdn_config" => {
+            let vals = |e: &AEntry| -> Vec<String> {
+                let mut v = vec![hex::encode(bk16(e.k))];
+                if e.a == 1 {
+                    v.push(c_size(e.s).to_string());
+                }
+                if e.t & 1 != 0 {
+                    v.push("x".into());
+                }
+                v
+            };
+            let key = |e: &AEntry| -> String {
+                // size class selects a key the serialiser orders explicitly vs. an unknown key
+                match (fmt, e.s) {
+                    ("build_config", 0) => ["root", "install", "download", "encoding"][(e.k as usize - 1) % 4].to_string(),
+                    ("cdn_config", 0) => ["archives", "archive-group", "patch-archives", "file-index"][(e.k as usize - 1) % 4].to_string(),
+                    _ => format!("vfs-{}-{}", e.k, e.s),
+                }
+            };
+            if fmt == "build_config" {
+                let mut c = BuildConfig::new();
+                for e in es {
+                    c.set(key(e), vals(e));
+                }
+                Ok(c.build())
+            } else {
+                let mut c = CdnConfig::new();
+                for e in es {
+                    c.set(key(e), vals(e));
+                }
+                Ok(c.build())
+            }
+        }
+        "keyring_config" => {
+            let mut c = KeyringConfig::new();
+            for e in es {
+                c.add_entry(hex::encode(&bk16(e.k)[..8]), hex::encode(k16(0x6B, e.k * 4 + e.s)));
+            }
+            Ok(c.build())
+        }
+        _ => Err(format!("no builder program for {fmt}")),
+    }
+}
+fn es_<E: std::fmt::Display>(e: E) -> String {
+    e.to_string()
+}
+
+fn bp_extract(fmt: &str, ver: u64, bytes: &[u8]) -> Result<Vec<Value>, String> {
+    let mut out = Vec::new();
+    match fmt {
+        "install" => {
+            let m = InstallManifest::parse(bytes).map_err(es_)?;
+            for (i, e) in m.entries.iter().enumerate() {
+                let k = a_path(&e.path);
+                let kk = a_key16(e.content_key.as_bytes());
+                out.push(ae(if k == kk { k } else { -1 }, a_size(u64::from(e.file_size)), 0, tagmask(&m.tags, i)));
+            }
+        }
+        "download" => {
+            let m = DownloadManifest::parse(bytes).map_err(es_)?;
+            for (i, e) in m.entries.iter().enumerate() {
+                let sz = e.file_size.as_u64();
+                let (s, a) = if sz >= (1u64 << 32) { (a_size(sz - (1u64 << 32)), 1) } else { (a_size(sz), 0) };
+                let a = if (a == 1 && e.priority == -3) || (a == 0 && e.priority == 2) { a } else { -1 };
+                out.push(ae(a_key16(e.encoding_key.as_bytes()), s, a, tagmask(&m.tags, i)));
+            }
+        }
+        "size" => {
+            let m = SizeManifest::parse(bytes).map_err(es_)?;
+            for (i, e) in m.entries.iter().enumerate() {
+                out.push(ae(a_key16(&e.key), a_size(e.esize), 0, tagmask(&m.tags, i)));
+            }
+        }
+        "archive_index" => {
+            let m = <ArchiveIndex as CascFormat>::parse(bytes).map_err(es_)?;
+            for e in &m.entries {
+                let k = a_key16(&e.encoding_key);
+                let ku = k.max(0) as u64;
+                let a = if ver == 6 {
+                    match (e.archive_index, e.offset == ku * 64) {
+                        (Some(0), true) => 0,
+                        (Some(513), true) => 1,
+                        _ => -1,
+                    }
+                } else if e.offset == ku * 64 {
+                    0
+                } else if e.offset == (if ver == 5 { 0xFF_0000_0000u64 + ku } else { 0xFFFF_0000 + ku }) {
+                    1
+                } else {
+                    -1
+                };
+                out.push(ae(k, a_size(u64::from(e.size)), a, 0));
+            }
+        }
+        "encoding" => {
+            let m = EncodingFile::parse(bytes).map_err(es_)?;
+            let mut eks: std::collections::HashMap<[u8; 16], (u64, String)> = std::collections::HashMap::new();
+            for p in &m.ekey_pages {
+                for e in &p.entries {
+                    let spec = m.espec_table.entries.get(e.espec_index as usize).cloned().unwrap_or_default();
+                    eks.insert(*e.encoding_key.as_bytes(), (e.file_size, spec));
+                }
+            }
+            let mut n_ekeys = 0usize;
+            for p in &m.ckey_pages {
+                for e in &p.entries {
+                    let k = a_key16(e.content_key.as_bytes());
+                    let ku = k.max(0) as u64;
+                    let (s, a) = if e.file_size >= (1u64 << 32) { (a_size(e.file_size - (1u64 << 32)), 1) } else { (a_size(e.file_size), 0) };
+                    let mut t: i64 = 0;
+                    let first_ok = e.encoding_keys.first().is_some_and(|x| *x.as_bytes() == k16(0x60, ku));
+                    match e.encoding_keys.len() {
+                        1 => {}
+                        2 if *e.encoding_keys[1].as_bytes() == k16(0x61, ku) => t |= 1,
+                        _ => t = -1,
+                    }
+                    match eks.get(&k16(0x60, ku)) {
+                        Some((fs, spec)) if *fs == e.file_size && t >= 0 => {
+                            n_ekeys += 1;
+                            if spec == "b:{256K*=z}" {
+                                t |= 2;
+                            } else if spec != "z" {
+                                t = -1;
+                            }
+                        }
+                        _ => t = -1,
+                    }
+                    out.push(ae(if first_ok { k } else { -1 }, s, a, t));
+                }
+            }
+            if n_ekeys != eks.len() {
+                out.push(ae(-1, -1, -1, -1));
+            }
+        }
+        "root" => {
+            use cascette_formats::root::{ContentFlags, LocaleFlags, calculate_name_hash};
+            let m = RootFile::parse(bytes).map_err(es_)?;
+            for b in &m.blocks {
+                for r in &b.records {
+                    let k = a_key16(r.content_key.as_bytes());
+                    let ku = k.max(0) as u64;
+                    let fd = r.file_data_id.get();
+                    let s = (0..4i64).find(|&s| fd == 10 + ku as u32 * (1 + c_size(s as u64).min(100_000) as u32)).unwrap_or(-1);
+                    let a = if b.locale_flags().value() == LocaleFlags::DEDE {
+                        1
+                    } else if b.locale_flags().value() == LocaleFlags::ENUS {
+                        0
+                    } else {
+                        -1
+                    };
+                    let t = match r.name_hash {
+                        Some(h) if h == calculate_name_hash(&bpath(ku)) => 1,
+                        None if ver != 1 && b.content_flags().value & ContentFlags::NO_NAME_HASH != 0 => 0,
+                        _ => -1,
+                    };
+                    // V1 always carries names: the program's named bit is not represented
+                    out.push(ae(k, s, a, if ver == 1 && t == 1 { -2 } else { t }));
+                }
+            }
+        }
+        "tvfs" => {
+            let m = TvfsFile::parse(bytes).map_err(es_)?;
+            for f in &m.path_table.files {
+                let k = a_path(&f.path);
+                let ku = k.max(0) as u64;
+                match m.resolve_path(&f.path) {
+                    None => out.push(ae(k, -1, -1, -1)),
+                    Some(c) => {
+                        let kk = a_key16(&c.ekey);
+                        let t = match &c.content_key {
+                            Some(ck) if ck.as_slice() == k16(0x62, ku) => 1,
+                            None => 0,
+                            _ => -1,
+                        };
+                        let vfs = m.vfs_table.entries.iter().find(|v| v.offset == f.vfs_offset);
+                        let clen = vfs.and_then(|v| v.spans.first().map(|s| s.span_length));
+                        let a = if ver == 1 {
+                            match (c.est_index, clen) {
+                                (Some(x), Some(77)) if x < 2 => i64::from(x),
+                                _ => -1,
+                            }
+                        } else {
+                            match clen {
+                                Some(77) => 0,
+                                Some(0xFFFF_FFFF) => 1,
+                                _ => -1,
+                            }
+                        };
+                        out.push(ae(if k == kk { k } else { -1 }, a_size(u64::from(c.encoded_size)), a, if ver == 1 && t == 1 { -2 } else { t }));
+                    }
+                }
+            }
+        }
+        "patch_archive" => {
+            let m = <PatchArchive as CascFormat>::parse(bytes).map_err(es_)?;
+            if ver == 1 && m.encoding_info.as_ref().is_none_or(|i| i.espec != "z" || i.decoded_size != 10 || i.encoded_size != 9 || i.encoding_ckey != k16(0x63, 1) || i.encoding_ekey != k16(0x64, 1)) {
+                out.push(ae(-1, -1, -1, -1));
+            }
+            for e in m.all_file_entries() {
+                let k = a_key16(&e.target_ckey);
+                let ku = k.max(0) as u64;
+                let (s, a) = if e.decoded_size >= (1u64 << 32) { (a_size(e.decoded_size - (1u64 << 32)), 1) } else { (a_size(e.decoded_size), 0) };
+                let p0 = e.patches.first().is_some_and(|p| p.source_ekey == k16(0x65, ku) && p.source_decoded_size == e.decoded_size && p.patch_ekey == k16(0x66, ku) && i64::from(a_size(u64::from(p.patch_size)) == s) == 1 && p.patch_index == 1);
+                let t = match e.patches.len() {
+                    1 => 0,
+                    2 if e.patches[1].source_ekey == k16(0x67, ku) && e.patches[1].source_decoded_size == 5 && e.patches[1].patch_ekey == k16(0x68, ku) && e.patches[1].patch_size == 6 && e.patches[1].patch_index == 2 => 1,
+                    _ => -1,
+                };
+                out.push(ae(if p0 { k } else { -1 }, s, a, t));
+            }
+        }
+        "patch_index" => {
+            let m = <PatchIndex as CascFormat>::parse(bytes).map_err(es_)?;
+            for e in &m.entries {
+                let k = a_key16(&e.source_ekey);
+                let ku = k.max(0) as u64;
+                let ok = e.target_ekey == k16(0x69, ku) && e.patch_ekey == k16(0x6A, ku) && e.encoded_size == 50;
+                let a = match e.target_size {
+                    7 => 0,
+                    0xFFFF_FFFF => 1,
+                    _ => -1,
+                };
+                out.push(ae(if ok { k } else { -1 }, a_size(u64::from(e.source_size)), a, i64::from(e.suffix_offset)));
+            }
+        }
+        "bpsv" => {
+            let d = <BpsvDocument as CascFormat>::parse(bytes).map_err(es_)?;
+            if d.sequence_number() != if ver == 1 { Some(4113) } else { None } || d.schema().field_names() != ["Name", "Hash", "Size"] {
+                out.push(ae(-1, -1, -1, -1));
+            }
+            for r in d.rows() {
+                let raw = r.raw_values();
+                let k = raw.first().map_or(-1, |p| a_path(p));
+                let a = match raw.get(1).map(String::as_str) {
+                    Some("") => 0,
+                    Some("deadbeef") => 1,
+                    _ => -1,
+                };
+                let s = raw.get(2).and_then(|x| x.parse::<u64>().ok()).map_or(-1, a_size);
+                out.push(ae(k, s, a, 0));
+            }
+        }
+        "build_config" | "cdn_config" => {
+            // every key the program can have produced is probed
+            let get = |k: &str| -> Option<Vec<String>> {
+                if fmt == "build_config" { BuildConfig::parse(bytes).ok()?.get(k).cloned() } else { CdnConfig::parse(bytes).ok()?.get(k).cloned() }
+            };
+            if fmt == "build_config" {
+                BuildConfig::parse(bytes).map_err(es_)?;
+            } else {
+                CdnConfig::parse(bytes).map_err(es_)?;
+            }
+            for k in 1..=8u64 {
+                for s in 0..4u64 {
+                    let key = match (fmt, s) {
+                        ("build_config", 0) => ["root", "install", "download", "encoding"][(k as usize - 1) % 4].to_string(),
+                        ("cdn_config", 0) => ["archives", "archive-group", "patch-archives", "file-index"][(k as usize - 1) % 4].to_string(),
+                        _ => format!("vfs-{k}-{s}"),
+                    };
+                    if let Some(v) = get(&key) {
+                        if v.first().map(String::as_str) != Some(hex::encode(bk16(k)).as_str()) {
+                            continue; // the well-known key belongs to another abstract key (k mod 4)
+                        }
+                        let rest: Vec<&str> = v[1..].iter().map(String::as_str).collect();
+                        let sz = c_size(s).to_string();
+                        let (a, t) = if rest.is_empty() {
+                            (0, 0)
+                        } else if rest == [sz.as_str()] {
+                            (1, 0)
+                        } else if rest == ["x"] {
+                            (0, 1)
+                        } else if rest == [sz.as_str(), "x"] {
+                            (1, 1)
+                        } else {
+                            (-1, -1)
+                        };
+                        out.push(ae(k as i64, s as i64, a, t));
+                    }
+                }
+            }
+        }
+        "keyring_config" => {
+            let c = KeyringConfig::parse(bytes).map_err(es_)?;
+            for e in c.entries() {
+                let k = (1..=8u64).find(|&k| hex::encode(&bk16(k)[..8]) == e.key_id).map_or(-1, |k| k as i64);
+                let s = (0..4u64).find(|&s| hex::encode(k16(0x6B, k.max(0) as u64 * 4 + s)) == e.key_value).map_or(-1, |s| s as i64);
+                out.push(ae(k, s, 0, 0));
+            }
+        }
+        _ => return Err(format!("no extractor for {fmt}")),
+    }
+    Ok(out)
+}
+
+fn run_bprog(p: &Value, env: &Env) -> Value {
+    let fmt = p["fmt"].as_str().unwrap_or("").to_string();
+    let ver = p["ver"].as_u64().unwrap_or(0);
+    let es = parse_entries(p);
+    let mut o = Map::new();
+    let (s, bytes) = stage_out(guarded(|| bp_build(&fmt, ver, &es)));
+    o.insert("build".into(), s);
+    let Some(bytes) = bytes else { return Value::Object(o) };
+    o.insert("n".into(), json!(bytes.len()));
+    o.insert("d".into(), json!(md5hex(&bytes)));
+    let (s, got) = stage_out(guarded(|| bp_extract(&fmt, ver, &bytes)));
+    o.insert("parse".into(), s);
+    if let Some(g) = got {
+        o.insert("got".into(), Value::Array(g));
+    }
+    // the builder's output is also an accepted input: the four round-trip equations on it
+    if let Some(fi) = fmt_index(&fmt)
+        && let Some(rt) = FORMATS[fi].rt
+    {
+        if let Ok(Ok(v)) = guarded(|| (FORMATS[fi].parse)(&bytes, env)) {
+            o.insert("rt".into(), rt(v, &bytes, env));
+        }
+    }
+    Value::Object(o)
+}
+
+// ------------------------------------------------------------------------------------------------
+// parent: planning, child management, events
+// ------------------------------------------------------------------------------------------------
+struct Job {
+    idx: u64,
+    fi: usize,
+    src: &'static str,
+    seed: String,
+    how: String,
+    bytes: Vec<u8>,
+    exact: bool,
+    prog: Option<Value>,
+}
+struct Plan {
+    seeds: Vec<Vec<Seed>>,
+    fixtures: Vec<(usize, usize)>,
+    model: Vec<(usize, usize, usize)>, // (vector, format, seed)
+    vectors: Vec<Value>,
+    bprogs: Vec<Value>,
+    nmut: u64,
+    seed: u64,
+    enabled: Vec<usize>,
+}
+fn family_members(fam: &str) -> Vec<&'static str> {
+    match fam {
+        "blte" => vec!["blte", "blte_decompress"],
+        "archive_index" => vec!["archive_index", "archive_group"],
+        "zbsdiff" => vec!["zbsdiff", "zbsdiff_apply"],
+        other => FORMATS.iter().filter(|f| f.name == other).map(|f| f.name).collect(),
+    }
+}
+impl Plan {
+    fn new(tmp: &Path, vectors: Vec<Value>, bprogs: Vec<Value>, nmut: u64, seed: u64, only: Option<Vec<String>>, no_fixtures: bool) -> Self {
+        let seeds = all_seeds(tmp);
+        let enabled: Vec<usize> = (0..FORMATS.len()).filter(|&i| only.as_ref().is_none_or(|o| o.iter().any(|n| n == FORMATS[i].name))).collect();
+        let mut fixtures = Vec::new();
+        if !no_fixtures {
+            for &fi in &enabled {
+                for si in 0..seeds[fi].len() {
+                    fixtures.push((fi, si));
+                }
+            }
+        }
+        let mut model = Vec::new();
+        for (vi, v) in vectors.iter().enumerate() {
+            for name in family_members(v["fmt"].as_str().unwrap_or("")) {
+                let Some(fi) = fmt_index(name) else { continue };
+                if !enabled.contains(&fi) {
+                    continue;
+                }
+                // patch into the first (small, builder-made) seed and into the first real fixture
+                let mut used = vec![0usize];
+                if let Some(r) = seeds[fi].iter().position(|s| s.real) {
+                    used.push(r);
+                }
+                // an explicit seed selector of the vector (e.g. the extended-header variants)
+                if let Some(want) = v["seed"].as_str() {
+                    used = seeds[fi].iter().enumerate().filter(|(_, s)| s.name.ends_with(want)).map(|(i, _)| i).collect();
+                }
+                for si in used {
+                    model.push((vi, fi, si));
+                }
+            }
+        }
+        Plan { seeds, fixtures, model, vectors, bprogs, nmut, seed, enabled }
+    }
+    fn total(&self) -> u64 {
+        (self.fixtures.len() + self.model.len() + self.bprogs.len()) as u64 + self.nmut
+    }
+    fn job(&self, i: u64) -> Job {
+        let mut j = i as usize;
+        if j < self.fixtures.len() {
+            let (fi, si) = self.fixtures[j];
+            let s = &self.seeds[fi][si];
+            return Job { idx: i, fi, src: "fixture", seed: s.name.clone(), how: String::new(), bytes: s.bytes.clone(), exact: s.real, prog: None };
+        }
+        j -= self.fixtures.len();
+        if j < self.model.len() {
+            let (vi, fi, si) = self.model[j];
+            let s = &self.seeds[fi][si];
+            let v = &self.vectors[vi];
+            let mut b = s.bytes.clone();
+            let lay = layout(FORMATS[fi].name);
+            let len = b.len();
+            let mut how = String::new();
+            if let Some(m) = v["v"].as_object() {
+                // fields are applied in layout order (a dynamic location sees the fields before it already patched)
+                for f in &lay {
+                    if let Some(tok) = m.get(f.name).and_then(Value::as_str)
+                        && let Some(cur) = fld_read(f, &b)
+                        && let Some(val) = class_value(tok, f.w, cur, len)
+                    {
+                        fld_write(f, &mut b, val);
+                        how.push_str(&format!("{}={tok},", f.name));
+                    }
+                }
+            }
+            if v["seal"].as_str() == Some("fix") && reseal(FORMATS[fi].name, &mut b) {
+                how.push_str("reseal,");
+            }
+            return Job { idx: i, fi, src: "model", seed: s.name.clone(), how, bytes: b, exact: false, prog: None };
+        }
+        j -= self.model.len();
+        if j < self.bprogs.len() {
+            let p = self.bprogs[j].clone();
+            let fi = fmt_index(p["fmt"].as_str().unwrap_or("")).unwrap_or(0);
+            return Job { idx: i, fi, src: "bprog", seed: String::new(), how: String::new(), bytes: Vec::new(), exact: false, prog: Some(p) };
+        }
+        j -= self.bprogs.len();
+        let mut rng = Rng::new(self.seed.wrapping_mul(0x1_0000_0001).wrapping_add(j as u64).wrapping_mul(0xD6E8_FEB8_6659_FD93));
+        let total_w: u64 = self.enabled.iter().map(|&f| u64::from(FORMATS[f].weight)).sum();
+        let mut pick = rng.below(total_w.max(1));
+        let mut fi = self.enabled[0];
+        for &f in &self.enabled {
+            let w = u64::from(FORMATS[f].weight);
+            if pick < w {
+                fi = f;
+                break;
+            }
+            pick -= w;
+        }
+        let ss = &self.seeds[fi];
+        let small: Vec<usize> = (0..ss.len()).filter(|&k| ss[k].bytes.len() <= 4096).collect();
+        let si = if !small.is_empty() && rng.chance(7, 10) { *rng.pick(&small) } else { rng.below(ss.len() as u64) as usize };
+        let oi = rng.below(ss.len() as u64) as usize;
+        let (bytes, how) = mutate(&mut rng, &ss[si].bytes, &FORMATS[fi], &ss[oi].bytes);
+        Job { idx: i, fi, src: "mut", seed: ss[si].name.clone(), how, bytes, exact: false, prog: None }
+    }
+}
+
+struct Kid {
+    proc: std::process::Child,
+    stdin: std::process::ChildStdin,
+    rx: std::sync::mpsc::Receiver<String>,
+    err: std::sync::Arc<std::sync::Mutex<Vec<u8>>>,
+}
+fn spawn_kid(tmp: &Path) -> Kid {
+    use std::process::{Command, Stdio};
+    let exe = std::env::current_exe().expect("current exe");
+    let mut proc = Command::new(exe)
+        .arg("--child")
+        .arg("--tmp")
+        .arg(tmp)
+        .env("RUST_LOG", "off")
+        .stdin(Stdio::piped())
+        .stdout(Stdio::piped())
+        .stderr(Stdio::piped())
+        .spawn()
+        .expect("spawn child");
+    let stdin = proc.stdin.take().expect("child stdin");
+    let stdout = proc.stdout.take().expect("child stdout");
+    let mut stderr = proc.stderr.take().expect("child stderr");
+    let (tx, rx) = std::sync::mpsc::channel::<String>();
+    std::thread::spawn(move || {
+        let rd = BufReader::with_capacity(1 << 16, stdout);
+        for line in rd.lines() {
+            let Ok(line) = line else { break };
+            if tx.send(line).is_err() {
+                break;
+            }
+        }
+    });
+    let err = std::sync::Arc::new(std::sync::Mutex::new(Vec::new()));
+    let e2 = err.clone();
+    std::thread::spawn(move || {
+        let mut buf = [0u8; 4096];
+        loop {
+            match stderr.read(&mut buf) {
+                Ok(0) | Err(_) => break,
+                Ok(n) => {
+                    let mut g = e2.lock().expect("stderr buffer");
+                    g.extend_from_slice(&buf[..n]);
+                    if g.len() > 16384 {
+                        let cut = g.len() - 8192;
+                        g.drain(..cut);
+                    }
+                }
+            }
+        }
+    });
+    Kid { proc, stdin, rx, err }
+}
+enum Got {
+    Line(Value),
+    Timeout,
+    Dead,
+}
+impl Kid {
+    fn send(&mut self, kind: u8, fi: usize, payload: &[u8]) -> bool {
+        let mut h = Vec::with_capacity(7 + payload.len());
+        h.push(kind);
+        h.extend_from_slice(&(fi as u16).to_le_bytes());
+        h.extend_from_slice(&(payload.len() as u32).to_le_bytes());
+        h.extend_from_slice(payload);
+        self.stdin.write_all(&h).and_then(|()| self.stdin.flush()).is_ok()
+    }
+    fn recv(&self, t: Duration) -> Got {
+        use std::sync::mpsc::RecvTimeoutError;
+        match self.rx.recv_timeout(t) {
+            Ok(l) => match serde_json::from_str::<Value>(&l) {
+                Ok(v) => Got::Line(v),
+                Err(_) => {
+                    eprintln!("driver: unreadable line from child: {}", trunc(&l, 200));
+                    Got::Dead
+                }
+            },
+            Err(RecvTimeoutError::Timeout) => Got::Timeout,
+            Err(RecvTimeoutError::Disconnected) => Got::Dead,
+        }
+    }
+    /// kill (if still running) and describe the death
+    fn reap(mut self, hang: bool) -> Value {
+        use std::os::unix::process::ExitStatusExt;
+        if hang {
+            let _ = self.proc.kill();
+        }
+        let st = self.proc.wait().ok();
+        std::thread::sleep(Duration::from_millis(20));
+        let tail = String::from_utf8_lossy(&self.err.lock().expect("stderr buffer")).to_string();
+        let sig = st.and_then(|s| s.signal()).unwrap_or(0);
+        let code = st.and_then(|s| s.code()).unwrap_or(-1);
+        let mut why = "other";
+        let mut req: u64 = 0;
+        if let Some(p) = tail.rfind("memory allocation of ") {
+            why = "alloc";
+            req = tail[p + 21..].split(' ').next().and_then(|x| x.parse().ok()).unwrap_or(0);
+        } else if tail.contains("has overflowed its stack") || tail.contains("stack overflow") {
+            why = "stack";
+        } else if tail.contains("capacity overflow") {
+            why = "capacity";
+        }
+        let last = tail.lines().rev().find(|l| !l.trim().is_empty()).unwrap_or("").to_string();
+        json!({"kind": if hang { "hang" } else { "abort" }, "sig": sig, "code": code, "why": if hang { "timeout" } else { why }, "req_kib": kib(req as usize), "stderr": trunc(&last, 160)})
+    }
+}
+struct Exec {
+    p: Option<Value>,
+    r: Option<Value>,
+    b: Option<Value>,
+    death: Option<(Value, &'static str)>, // (description, stage)
+}
+fn exec(kid: &mut Option<Kid>, tmp: &Path, job: &Job, t: Duration) -> Exec {
+    if kid.is_none() {
+        *kid = Some(spawn_kid(tmp));
+    }
+    let mut ex = Exec { p: None, r: None, b: None, death: None };
+    let k = kid.as_mut().expect("kid");
+    let sent = match &job.prog {
+        Some(p) => k.send(b'B', job.fi, p.to_string().as_bytes()),
+        None => k.send(b'P', job.fi, &job.bytes),
+    };
+    let mut stage: &'static str = if job.prog.is_some() { "bprog" } else { "parse" };
+    if !sent {
+        ex.death = Some((kid.take().expect("kid").reap(false), stage));
+        return ex;
+    }
+    loop {
+        match kid.as_ref().expect("kid").recv(t) {
+            Got::Line(v) => match v["k"].as_str() {
+                Some("b") => {
+                    ex.b = Some(v);
+                    return ex;
+                }
+                Some("p") => {
+                    let more = v["more"].as_bool().unwrap_or(false);
+                    ex.p = Some(v);
+                    if !more {
+                        return ex;
+                    }
+                    stage = "rt";
+                }
+                Some("r") => {
+                    ex.r = Some(v);
+                    return ex;
+                }
+                _ => {}
+            },
+            Got::Timeout => {
+                ex.death = Some((kid.take().expect("kid").reap(true), stage));
+                return ex;
+            }
+            Got::Dead => {
+                ex.death = Some((kid.take().expect("kid").reap(false), stage));
+                return ex;
+            }
+        }
+    }
+}
+
+#[derive(Default)]
+struct Stats {
+    jobs: u64,
+    events: u64,
+    by_src: std::collections::BTreeMap<String, u64>,
+    outcomes: std::collections::BTreeMap<String, u64>,
+    by_fmt: std::collections::BTreeMap<String, [u64; 3]>, // inputs, accepted, not ok/err
+    rt: u64,
+    reruns: u64,
+    flaky: u64,
+    distinct: std::collections::HashSet<[u8; 16]>,
+}
+fn copy_keys(dst: &mut Map<String, Value>, src: &Value, keys: &[&str]) {
+    for k in keys {
+        if let Some(v) = src.get(*k) {
+            dst.insert((*k).into(), v.clone());
+        }
+    }
+}
+fn events_of(job: &Job, ex: &Exec, rerun: bool, first: Option<&Value>, st: &mut Stats) -> Vec<Value> {
+    let f = &FORMATS[job.fi];
+    let mut out = Vec::new();
+    let mut base = Map::new();
+    base.insert("id".into(), json!(job.idx));
+    base.insert("src".into(), json!(job.src));
+    base.insert("fmt".into(), json!(f.name));
+    if let Some(p) = &job.prog {
+        let mut e = base.clone();
+        e.insert("op".into(), json!("bprog"));
+        e.insert("ver".into(), p["ver"].clone());
+        e.insert("es".into(), p["es"].clone());
+        match (&ex.b, &ex.death) {
+            (Some(b), _) => {
+                e.insert("o".into(), json!("done"));
+                copy_keys(&mut e, b, &["build", "parse", "got", "n", "d", "rt"]);
+            }
+            (None, Some((d, _))) => {
+                e.insert("o".into(), d["kind"].clone());
+                e.insert("death".into(), d.clone());
+            }
+            _ => {
+                e.insert("o".into(), json!("abort"));
+            }
+        }
+        *st.outcomes.entry(format!("bprog:{}", e["o"].as_str().unwrap_or("?"))).or_default() += 1;
+        out.push(Value::Object(e));
+        return out;
+    }
+    base.insert("seed".into(), json!(job.seed));
+    base.insert("how".into(), json!(trunc(&job.how, 200)));
+    base.insert("dg".into(), json!(md5hex(&job.bytes)));
+    base.insert("len".into(), json!(job.bytes.len()));
+    st.distinct.insert(md5::compute(&job.bytes).0);
+    // ---- parse event
+    let mut e = base.clone();
+    e.insert("op".into(), json!("parse"));
+    e.insert("decomp".into(), json!(f.decomp));
+    e.insert("h".into(), header_fields(f.name, &job.bytes));
+    e.insert("rerun".into(), json!(rerun));
+    if let Some(fd) = first {
+        e.insert("first".into(), fd["kind"].clone());
+    }
+    let o: String;
+    match (&ex.p, &ex.death) {
+        (Some(p), _) => {
+            o = p["o"].as_str().unwrap_or("?").to_string();
+            e.insert("o".into(), json!(o));
+            e.insert("msg".into(), p["msg"].clone());
+            e.insert("peak_kib".into(), json!(kib(p["peak"].as_u64().unwrap_or(0) as usize)));
+            e.insert("largest_kib".into(), json!(kib(p["largest"].as_u64().unwrap_or(0) as usize)));
+            e.insert("ms".into(), json!(p["us"].as_u64().unwrap_or(0) / 1000));
+        }
+        (None, Some((d, _))) => {
+            o = d["kind"].as_str().unwrap_or("abort").to_string();
+            e.insert("o".into(), json!(o));
+            e.insert("msg".into(), d["stderr"].clone());
+            e.insert("peak_kib".into(), json!(0));
+            e.insert("largest_kib".into(), d["req_kib"].clone());
+            e.insert("ms".into(), json!(0));
+            e.insert("sig".into(), d["sig"].clone());
+            e.insert("why".into(), d["why"].clone());
+        }
+        _ => {
+            o = "abort".into();
+            e.insert("o".into(), json!("abort"));
+        }
+    }
+    *st.outcomes.entry(o.clone()).or_default() += 1;
+    let fe = st.by_fmt.entry(f.name.to_string()).or_default();
+    fe[0] += 1;
+    if o == "ok" {
+        fe[1] += 1;
+    }
+    if o != "ok" && o != "err" {
+        fe[2] += 1;
+    }
+    out.push(Value::Object(e));
+    // ---- round-trip event
+    let rt_started = ex.p.as_ref().is_some_and(|p| p["more"].as_bool().unwrap_or(false));
+    if rt_started {
+        let mut e = base.clone();
+        e.insert("op".into(), json!("rt"));
+        e.insert("exact".into(), json!(job.exact));
+        match (&ex.r, &ex.death) {
+            (Some(r), _) => {
+                e.insert("o".into(), json!("done"));
+                copy_keys(&mut e, r, &["b2", "l1", "p2", "l2", "b3", "l1_text", "l2_text", "hm"]);
+            }
+            (None, Some((d, _))) => {
+                e.insert("o".into(), d["kind"].clone());
+                e.insert("death".into(), d.clone());
+            }
+            _ => {
+                e.insert("o".into(), json!("abort"));
+            }
+        }
+        st.rt += 1;
+        out.push(Value::Object(e));
+    }
+    out
+}
+
+fn run_jobs(plan: &Plan, tmp: &Path, out_path: &str, workers: usize, timeout: Duration, only_job: Option<u64>) -> Stats {
+    let total = plan.total();
+    let plan = std::sync::Arc::new(plan);
+    let mut stats = Stats::default();
+    let results: Vec<Stats> = std::thread::scope(|sc| {
+        let mut hs = Vec::new();
+        for w in 0..workers {
+            let plan = plan.clone();
+            let wtmp = tmp.join(format!("w{w}"));
+            let part = format!("{out_path}.part{w}");
+            hs.push(sc.spawn(move || {
+                std::fs::create_dir_all(&wtmp).expect("worker tmp");
+                let mut st = Stats::default();
+                let mut f = std::io::BufWriter::with_capacity(1 << 20, std::fs::File::create(&part).expect("part file"));
+                let mut kid: Option<Kid> = None;
+                let mut i = w as u64;
+                while i < total {
+                    if only_job.is_some_and(|o| o != i) {
+                        i += workers as u64;
+                        continue;
+                    }
+                    let job = plan.job(i);
+                    let mut ex = exec(&mut kid, &wtmp, &job, timeout);
+                    let mut rerun = false;
+                    let mut first = None;
+                    if let Some((d, _)) = &ex.death {
+                        // re-run alone in a fresh child, three times the budget: only a reproducible death counts
+                        first = Some(d.clone());
+                        rerun = true;
+                        st.reruns += 1;
+                        kid = None;
+                        ex = exec(&mut kid, &wtmp, &job, timeout * 3);
+                        if ex.death.is_none() {
+                            st.flaky += 1;
+                        }
+                    }
+                    for e in events_of(&job, &ex, rerun, first.as_ref(), &mut st) {
+                        serde_json::to_writer(&mut f, &e).expect("write event");
+                        f.write_all(b"\n").expect("write event");
+                        st.events += 1;
+                    }
+                    st.jobs += 1;
+                    *st.by_src.entry(job.src.to_string()).or_default() += 1;
+                    i += workers as u64;
+                }
+                f.flush().expect("flush part");
+                drop(kid);
+                st
+            }));
+        }
+        hs.into_iter().map(|h| h.join().expect("worker")).collect()
+    });
+    let mut out = std::io::BufWriter::with_capacity(1 << 20, std::fs::File::create(out_path).expect("out file"));
+    for w in 0..workers {
+        let part = format!("{out_path}.part{w}");
+        let mut f = std::fs::File::open(&part).expect("part");
+        std::io::copy(&mut f, &mut out).expect("concat");
+        let _ = std::fs::remove_file(&part);
+    }
+    out.flush().expect("flush out");
+    for s in results {
+        stats.jobs += s.jobs;
+        stats.events += s.events;
+        stats.rt += s.rt;
+        stats.reruns += s.reruns;
+        stats.flaky += s.flaky;
+        for (k, v) in s.by_src {
+            *stats.by_src.entry(k).or_default() += v;
+        }
+        for (k, v) in s.outcomes {
+            *stats.outcomes.entry(k).or_default() += v;
+        }
+        for (k, v) in s.by_fmt {
+            let e = stats.by_fmt.entry(k).or_default();
+            for j in 0..3 {
+                e[j] += v[j];
+            }
+        }
+        stats.distinct.extend(s.distinct);
+    }
+    stats
+}
+
+fn read_ndjson(path: Option<String>) -> Vec<Value> {
+    match path {
+        Some(p) => verif_harness::read_programs(&p),
+        None => Vec::new(),
+    }
+}
+
+fn parent_main(args: &[String]) {
+    let out = arg(args, "--out").unwrap_or_else(|| "/dev/stdout".into());
+    let tmp = PathBuf::from(arg(args, "--tmp").unwrap_or_else(|| format!("/verif/.work/drv_parse.{}", std::process::id())));
+    std::fs::create_dir_all(&tmp).expect("tmp dir");
+    let workers = arg_u64(args, "--jobs", 4).max(1) as usize;
+    let timeout = Duration::from_secs(arg_u64(args, "--timeout", 10));
+    let only = arg(args, "--formats").map(|s| s.split(',').map(str::to_string).collect::<Vec<_>>());
+    // --replay FILE: {"fmt":..,"hex":..,"exact":..} or {"prog":{..}}: exactly that input, one child
+    if let Some(rp) = arg(args, "--replay") {
+        let obj: Value = serde_json::from_slice(&std::fs::read(&rp).expect("replay file")).expect("replay json");
+        let obj = if obj.get("input").is_some() { obj["input"].clone() } else { obj };
+        let fi = fmt_index(obj["fmt"].as_str().unwrap_or("")).expect("format of the replay file");
+        let job = match obj.get("prog") {
+            Some(p) if !p.is_null() => Job { idx: 0, fi, src: "bprog", seed: String::new(), how: String::new(), bytes: Vec::new(), exact: false, prog: Some(p.clone()) },
+            _ => Job {
+                idx: obj["id"].as_u64().unwrap_or(0),
+                fi,
+                src: "replay",
+                seed: obj["seed"].as_str().unwrap_or("").to_string(),
+                how: obj["how"].as_str().unwrap_or("").to_string(),
+                bytes: hex::decode(obj["hex"].as_str().unwrap_or("")).expect("hex input"),
+                exact: obj["exact"].as_bool().unwrap_or(false),
+                prog: None,
+            },
+        };
+        let mut kid = None;
+        let mut st = Stats::default();
+        let mut ex = exec(&mut kid, &tmp, &job, timeout * 3);
+        let mut first = None;
+        if let Some((d, _)) = &ex.death {
+            first = Some(d.clone());
+            kid = None;
+            ex = exec(&mut kid, &tmp, &job, timeout * 3);
+        }
+        let mut f = std::fs::File::create(&out).expect("out");
+        for e in events_of(&job, &ex, first.is_some(), first.as_ref(), &mut st) {
+            writeln!(f, "{e}").expect("write");
+            st.events += 1;
+        }
+        drop(kid);
+        let _ = std::fs::remove_dir_all(&tmp);
+        eprintln!("{}", json!({"programs": 1, "events": st.events}));
+        return;
+    }
+    let vectors = read_ndjson(arg(args, "--vectors"));
+    let bprogs = read_ndjson(arg(args, "--bprogs"));
+    let nmut = arg_u64(args, "--mutations", 0);
+    let plan = Plan::new(&tmp, vectors, bprogs, nmut, seed_from_env(), only, has_flag(args, "--no-fixtures"));
+    if let Some(i) = arg(args, "--dump-job").and_then(|s| s.parse::<u64>().ok()) {
+        let j = plan.job(i);
+        println!("{}", json!({"id": j.idx, "fmt": FORMATS[j.fi].name, "src": j.src, "seed": j.seed, "how": j.how, "exact": j.exact, "hex": hex::encode(&j.bytes), "prog": j.prog}));
+        let _ = std::fs::remove_dir_all(&tmp);
+        return;
+    }
+    if has_flag(args, "--list-seeds") {
+        for (fi, ss) in plan.seeds.iter().enumerate() {
+            for s in ss {
+                println!("{}\t{}\t{}\t{}", FORMATS[fi].name, s.name, s.bytes.len(), s.real);
+            }
+        }
+        let _ = std::fs::remove_dir_all(&tmp);
+        return;
+    }
+    let only_job = arg(args, "--only-job").and_then(|s| s.parse::<u64>().ok());
+    let t0 = Instant::now();
+    let st = run_jobs(&plan, &tmp, &out, workers, timeout, only_job);
+    let _ = std::fs::remove_dir_all(&tmp);
+    let by_fmt: Map<String, Value> = st.by_fmt.iter().map(|(k, v)| (k.clone(), json!(v))).collect();
+    eprintln!(
+        "{}",
+        json!({"programs": st.jobs, "events": st.events, "by_src": st.by_src, "outcomes": st.outcomes, "by_fmt": by_fmt, "rt": st.rt, "reruns": st.reruns, "flaky": st.flaky,
+               "distinct_inputs": st.distinct.len(), "fixtures": plan.fixtures.len(), "model_jobs": plan.model.len(), "bprogs": plan.bprogs.len(), "mutations": plan.nmut,
+               "wall_ms": t0.elapsed().as_millis() as u64})
+    );
+}
+
 
 // ------------------------------------------------------------------------------------------------
 // child
@@ -1024,7 +2632,7 @@ fn child_main(args: &[String]) {
             let prog: Value = serde_json::from_slice(&payload).expect("builder program json");
             let base = meter_reset();
             let t0 = Instant::now();
-            let mut res = run_bprog(&prog);
+            let mut res = run_bprog(&prog, &env);
             let (peak, largest, _) = meter_read(base);
             res["k"] = json!("b");
             res["peak"] = json!(peak);
